@@ -97,6 +97,20 @@ theorem C16_assign_lost_counterexample (cfg : CloneCfg) (hc : cfg.clauses = true
     subst h; subst hc
     cases ca <;> decide
 
+/-- PARTIAL, whole-chain form (extra hypothesis = exact negation of finding F3's pattern as the harness
+    decides it): a chain in which no Session/WithContext follows a non-empty Attrs/Assign gives the same
+    result as the chain with ALL its Session/WithContext calls removed — whatever `clone()` does with
+    attrs/assigns. -/
+theorem C16_session_invariant_outside_pattern (cfg : CloneCfg) (hc : cfg.clauses = true) (sch : Schema) (s : Store)
+    (steps : List Step) (f : Fin) (hpat : f3Pattern false steps = false) :
+    runChain cfg sch s steps f = runChain cfg sch s (steps.filter (fun st => !st.isDeriv)) f :=
+  finish_run_outside_pattern hc sch s f steps _ _ rfl ⟨rfl, rfl⟩ base_inv base_inv hpat
+
+/-- non-vacuity / sharpness: the F3 witness chain is inside the pattern, and a chain with the derivation
+    BEFORE the Attrs is outside it -/
+example : f3Pattern false (insertAt 2 .withCtx c16CexChain) = true := by decide
+example : f3Pattern false (insertAt 1 .withCtx c16CexChain) = false := by decide
+
 /-- regenerated fact: `clone()` copies the clause map (conditions and ON CONFLICT travel through derivations) -/
 theorem C16_clone_copies_clauses : genCfg.clauses = true := by decide
 
